@@ -164,7 +164,8 @@ Lemma x86_lf_blk_ok pos bp next epr m lc lv lc' freed0 klink s sp p h F :
   let t := tpos (2 * N.of_nat (List.length epr)) in
   load_values (rev next) epr (blk_reg_of t) (3 - bp_n bp) m lc = Ok (lv, lc') ->
   next <> [] -> (N.of_nat (List.length next) <= 3 - bp_n bp)%N ->
-  klink = (2 * N.of_nat (List.length epr + List.length next))%N -> (klink < MAXPOS)%N ->
+  klink = (2 * N.of_nat (List.length epr + List.length next))%N ->
+  (2 * N.of_nat (List.length epr) < MAXPOS)%N -> (bp = Other -> (klink < MAXPOS)%N) ->
   code_at im pos (lf_blk_code t freed0 bp m klink lv) -> labels_at im pos (lf_blk_code t freed0 bp m klink lv) -> frame_ok s sp ->
   (freed0 = true -> (12 <= 2 * N.of_nat (List.length epr))%N) ->
   lgetL s sp freed0 t = Some p -> is_blk p -> rget s HEAP = Some h ->
@@ -186,17 +187,16 @@ Lemma x86_lf_blk_ok pos bp next epr m lc lv lc' freed0 klink s sp p h F :
     (exists h', rget s' HEAP = Some h') /\
     out s' = out s /\ frame_ok s' sp.
 Proof.
-  intros t Hlv Hne Hlen Hkl Hklm HC HL FR Hfr P Hb Hh Kids Room freed1.
+  intros t Hlv Hne Hlen Hkl Kt Hklm HC HL FR Hfr P Hb Hh Kids Room freed1.
   set (Eb := List.length epr) in *.
   assert (Hn1 : (1 <= List.length next)%nat) by (destruct next; [contradiction|cbn; lia]).
-  assert (Kt : (2 * N.of_nat Eb < MAXPOS)%N) by lia.
   destruct (tpos_not_reserved (2 * N.of_nat Eb)) as (_ & NT & NH & _).
   unfold freed1. clear freed1. subst t. destruct (tpos (2 * N.of_nat Eb)) as [mr|mp] eqn:Et; cbn [blk_reg_of lf_blk_code freed_after] in *.
   - (* the pointer in a register *)
     assert (Hf0 : freed0 = false).
     { destruct freed0; [|reflexivity]. specialize (Hfr eq_refl). apply tpos_reg in Et as [_ Hlt]. lia. }
     subst freed0. rewrite lgetL_false in P. cbn [lget] in P.
-    destruct (x86_load_block_ok pos bp next epr m lc lv lc' mr klink s sp p h F Hlv Hne Hlen Hkl (fun _ => Hklm) HC HL FR P Hb Hh)
+    destruct (x86_load_block_ok pos bp next epr m lc lv lc' mr klink s sp p h F Hlv Hne Hlen Hkl Hklm HC HL FR P Hb Hh)
       as (s2 & ST & EQ & Vl & V & Oth & NB & Hd & HH & O & FR2); auto; try congruence.
     { intros k Hk. rewrite <- Et. apply tpos_neq. fold Eb in Hk. lia. }
     exists s2. split; [exact ST|]. split; [exact EQ|].
@@ -235,7 +235,7 @@ Proof.
           * rewrite sget_rset. unfold s1. apply sget_sset_other; auto. congruence.
         + apply frame_ok_rset; [discriminate|exact F1]. }
     destruct SA as (sA & STA & RA & SvA & OthA & WA & OA & FRA).
-    destruct (x86_load_block_ok _ bp next epr m lc lv lc' TEMPORARY_TEMP klink sA sp p h F Hlv Hne Hlen Hkl (fun _ => Hklm) HC2 HL2 FRA RA Hb)
+    destruct (x86_load_block_ok _ bp next epr m lc lv lc' TEMPORARY_TEMP klink sA sp p h F Hlv Hne Hlen Hkl Hklm HC2 HL2 FRA RA Hb)
       as (s2 & ST & EQ & Vl & V & Oth & NB & Hd & HH & O & FR2); auto; try discriminate.
     { rewrite <- Hh. change (lget sA sp (XR HEAP) = lget s sp (XR HEAP)). apply OthA; [discriminate|discriminate|cbn; discriminate]. }
     { intros k Hk. apply not_eq_sym, tpos_not_tt. lia. }
@@ -296,3 +296,266 @@ Proof.
     + exact FR3.
 Qed.
 End LoadChain.
+
+(* ---------- the walk of load_fields over the blocks of an object, in emission order ---------- *)
+(* the pointer found after the blocks of a call (the link of its last block) *)
+Fixpoint lf_ptr (fuel : nat) (w : Z -> Z) (to_load : ctx) (bp : block_position) (p : Z) : Z :=
+  match fuel with
+  | O => p
+  | S f => match to_load with
+           | [] => p
+           | _ => w (lf_ptr f w (firstn (rest_len (List.length to_load) (3 - bp_n bp)) to_load) Other p + 48)
+           end
+  end.
+Fixpoint lf_abs (fuel : nat) (m : load_mode) (w : Z -> Z) (to_load : ctx) (bp : block_position) (p : Z) (a : Heap.st) : Heap.st :=
+  match fuel with
+  | O => a
+  | S f => match to_load with
+           | [] => a
+           | _ => let rl := rest_len (List.length to_load) (3 - bp_n bp) in
+                  blk_abs m w (skipn rl to_load) (lf_ptr f w (firstn rl to_load) Other p) (3 - bp_n bp)
+                          (lf_abs f m w (firstn rl to_load) Other p a)
+           end
+  end.
+(* every block pointer is a block, the pointer slots that get shared are null or blocks *)
+Fixpoint lf_ok (fuel : nat) (m : load_mode) (w : Z -> Z) (to_load : ctx) (bp : block_position) (p : Z) : Prop :=
+  match fuel with
+  | O => True
+  | S f => match to_load with
+           | [] => True
+           | _ => let rl := rest_len (List.length to_load) (3 - bp_n bp) in
+                  lf_ok f m w (firstn rl to_load) Other p /\
+                  is_blk (lf_ptr f w (firstn rl to_load) Other p) /\
+                  lv_kids m w (rev (skipn rl to_load)) (lf_ptr f w (firstn rl to_load) Other p) (3 - bp_n bp)
+           end
+  end.
+(* the addresses of the field slots, left to right *)
+Definition blk_addrs (q : Z) (cap : N) : list Z := if (cap =? 3)%N then [q + 16; q + 32; q + 48] else [q + 16; q + 32].
+Fixpoint lf_addrs (fuel : nat) (w : Z -> Z) (to_load : ctx) (bp : block_position) (p : Z) : list Z :=
+  match fuel with
+  | O => []
+  | S f => match to_load with
+           | [] => []
+           | _ => let rl := rest_len (List.length to_load) (3 - bp_n bp) in
+                  lf_addrs f w (firstn rl to_load) Other p ++ blk_addrs (lf_ptr f w (firstn rl to_load) Other p) (3 - bp_n bp)
+           end
+  end.
+
+Lemma blk_addrs_nth q cap j : (cap = 3 \/ cap = 2)%N -> (j < cap)%N -> nth (N.to_nat j) (blk_addrs q cap) 0 = q + field_offset Fst j.
+Proof.
+  intros [-> | ->] Hj; unfold blk_addrs; cbn [N.eqb Pos.eqb].
+  - assert (Hc : (j = 0 \/ j = 1 \/ j = 2)%N) by lia. destruct Hc as [->|[->| ->]]; reflexivity.
+  - assert (Hc : (j = 0 \/ j = 1)%N) by lia. destruct Hc as [->| ->]; reflexivity.
+Qed.
+Lemma blk_addrs_length q cap : (cap = 3 \/ cap = 2)%N -> List.length (blk_addrs q cap) = N.to_nat cap.
+Proof. intros [-> | ->]; reflexivity. Qed.
+Lemma fo_snd_fst j : field_offset Snd j = field_offset Fst j + 8.
+Proof. rewrite !field_offset_val. cbn [tnum_n]. lia. Qed.
+
+
+Section LoadChain2.
+Variable im : image.
+
+Lemma load_values_pos bsrev : forall epr R ff m lc lv lc',
+  load_values bsrev epr R ff m lc = Ok (lv, lc') -> bsrev <> [] ->
+  (2 * N.of_nat (List.length epr + List.length bsrev) < MAXPOS + 1)%N.
+Proof.
+  destruct bsrev as [|b rest]; intros epr R ff m lc lv lc' H Hne; [contradiction|].
+  cbn [load_values] in H.
+  destruct (load_value b (epr ++ rev rest) R (ff - 1) m lc) as [[c1 lc1]|] eqn:E1; [|discriminate].
+  destruct (load_value_shape _ _ _ _ _ _ _ _ E1) as (K & _). rewrite app_length, rev_length in K. cbn [List.length]. lia.
+Qed.
+
+Lemma load_fields_unfold fuel to_load existing bp m freed lc cs fr lc' :
+  to_load <> [] -> load_fields (S fuel) to_load existing bp m freed lc = Ok (cs, fr, lc') ->
+  let rl := rest_len (List.length to_load) (3 - bp_n bp) in
+  let epr := existing ++ firstn rl to_load in
+  let t := tpos (2 * N.of_nat (List.length epr)) in
+  let klink := (2 * N.of_nat (List.length (existing ++ to_load)))%N in
+  exists c0 freed0 lc0 lv,
+    load_fields fuel (firstn rl to_load) existing Other m freed lc = Ok (c0, freed0, lc0) /\
+    (2 * N.of_nat (List.length epr) < MAXPOS)%N /\
+    (bp = Other -> (klink < MAXPOS)%N) /\
+    load_values (rev (skipn rl to_load)) epr (blk_reg_of t) (3 - bp_n bp) m lc0 = Ok (lv, lc') /\
+    cs = c0 ++ lf_blk_code t freed0 bp m klink lv /\
+    fr = match t with XR _ => freed0 | XS _ => true end.
+Proof.
+  intros Hne H rl epr t klink. cbn [load_fields] in H. destruct to_load as [|x r]; [contradiction|].
+  change (FIELDS_PER_BLOCK - bp_n bp)%N with (3 - bp_n bp)%N in H.
+  fold (rest_len (List.length (x :: r)) (3 - bp_n bp)) in H. fold rl in H. fold epr in H.
+  destruct (load_fields fuel (firstn rl (x :: r)) existing Other m freed lc) as [[[c0 freed0] lc0]|] eqn:E0; [|discriminate].
+  cbn [rbind] in H.
+  destruct (x_fresh Fst epr) as [t'|] eqn:Et; [|discriminate]. cbn [rbind] in H.
+  apply x_fresh_tpos in Et as [-> Hk]. cbn [tnum_n] in *. rewrite N.add_0_r in *. fold t in H.
+  exists c0, freed0, lc0.
+  assert (Hlink : forall R c2, (match bp with Other => load_field Fst (existing ++ x :: r) R (FIELDS_PER_BLOCK - 1) | Last => Ok [] end) = Ok c2 ->
+            c2 = link_load_code bp klink R /\ (bp = Other -> (klink < MAXPOS)%N)).
+  { intros R c2 Hc. destruct bp; cbn [link_load_code].
+    - inversion Hc. split; [reflexivity|discriminate].
+    - change (FIELDS_PER_BLOCK - 1)%N with 2%N in Hc. apply load_field_shape in Hc as [K ->]. cbn [tnum_n] in *. rewrite N.add_0_r in *.
+      split; [reflexivity|intros _; exact K]. }
+  destruct t as [mr|mp] eqn:Etp; cbn [blk_reg_of lf_blk_code].
+  - destruct (match bp with Other => load_field Fst (existing ++ x :: r) mr (FIELDS_PER_BLOCK - 1) | Last => Ok [] end) as [c2|] eqn:E2; [|discriminate].
+    cbn [rbind] in H. destruct (Hlink _ _ E2) as [-> HK].
+    destruct (load_values (rev (skipn rl (x :: r))) epr mr (3 - bp_n bp) m lc0) as [[c3 lc3]|] eqn:E3; [|discriminate]. cbn [rbind] in H.
+    inversion H; subst. exists c3. auto 7.
+  - destruct (match bp with Other => load_field Fst (existing ++ x :: r) TEMPORARY_TEMP (FIELDS_PER_BLOCK - 1) | Last => Ok [] end) as [c2|] eqn:E2; [|discriminate].
+    cbn [rbind] in H. destruct (Hlink _ _ E2) as [-> HK].
+    destruct (load_values (rev (skipn rl (x :: r))) epr TEMPORARY_TEMP (3 - bp_n bp) m lc0) as [[c3 lc3]|] eqn:E3; [|discriminate]. cbn [rbind] in H.
+    inversion H; subst. exists c3. split; [reflexivity|]. split; [exact Hk|]. split; [exact HK|]. split; [reflexivity|]. split; [|reflexivity].
+    f_equal. rewrite <- !app_assoc. destruct freed0; destruct m; destruct bp; reflexivity.
+Qed.
+
+Definition frL (bp : block_position) (fr : bool) : bool := match bp with Last => false | Other => fr end.
+
+Lemma lf_addrs_length w p : forall fuel to_load bp, (List.length to_load < fuel)%nat ->
+  (List.length to_load <= List.length (lf_addrs fuel w to_load bp p))%nat.
+Proof.
+  induction fuel as [|f IH]; intros to_load bp Hf; [lia|]. cbn [lf_addrs].
+  destruct to_load as [|x r]; [cbn; lia|].
+  set (tl := x :: r) in *. set (cap := (3 - bp_n bp)%N). set (rl := rest_len (List.length tl) cap).
+  assert (Hcap : (cap = 3 \/ cap = 2)%N) by (unfold cap; destruct bp; cbn; auto).
+  assert (Hrl : rl = (List.length tl - N.to_nat cap)%nat) by apply rest_len_val.
+  rewrite app_length, blk_addrs_length by exact Hcap.
+  specialize (IH (firstn rl tl) Other). rewrite firstn_length in IH.
+  assert (Hn : (1 <= List.length tl)%nat) by (unfold tl; cbn; lia).
+  specialize (IH ltac:(lia)). lia.
+Qed.
+
+Lemma blk_abs_congr m w w' next q cap a a' :
+  st_eqB a a' -> (forall j, (j < cap)%N -> w (q + field_offset Fst j) = w' (q + field_offset Fst j)) ->
+  is_blk q -> (N.of_nat (List.length next) <= cap)%N -> lv_kids m w (rev next) q cap ->
+  st_eqB (blk_abs m w next q cap a) (blk_abs m w' next q cap a').
+Proof.
+  intros E Hw Hb Hlen K. unfold blk_abs. apply lv_abs_congr; auto.
+  - destruct m; [apply release_st_eqB; auto|exact E].
+  - now rewrite rev_length.
+Qed.
+
+(* ---------- the recursion of load_fields ---------- *)
+Lemma x86_load_fields_ok : forall fuel to_load existing bp m freed lc cs fr lc' pos s sp p h F,
+  load_fields fuel to_load existing bp m freed lc = Ok (cs, fr, lc') ->
+  (List.length to_load < fuel)%nat -> (bp = Last -> to_load <> []) ->
+  code_at im pos cs -> labels_at im pos cs -> frame_ok s sp ->
+  (freed = true -> (12 <= 2 * N.of_nat (List.length existing))%N) ->
+  lgetL s sp freed (tpos (2 * N.of_nat (List.length existing))) = Some p -> rget s HEAP = Some h ->
+  lf_ok fuel m (hword s) to_load bp p ->
+  (m = Share -> forall x, is_blk x -> min_int <= hword s x /\ hword s x + Z.of_nat (List.length to_load) <= max_int) ->
+  exists s', steps im pos s (pnth pos (List.length cs)) s' /\
+    st_eqB (abs_heap F s') (lf_abs fuel m (hword s) to_load bp p (abs_heap F s)) /\
+    (frL bp fr = true -> (12 <= 2 * N.of_nat (List.length existing + List.length to_load))%N) /\
+    (bp = Other -> lgetL s' sp (frL bp fr) (tpos (2 * N.of_nat (List.length existing + List.length to_load))) =
+                   Some (lf_ptr fuel (hword s) to_load bp p)) /\
+    (forall i b, nth_error to_load i = Some b ->
+       let A := lf_addrs fuel (hword s) to_load bp p in
+       let a := nth (List.length A - List.length to_load + i) A 0 in
+       lgetL s' sp (frL bp fr) (tpos (2 * N.of_nat (List.length existing + i) + 1)) = Some (hword s (a + 8)) /\
+       (bchi b <> Ext -> lgetL s' sp (frL bp fr) (tpos (2 * N.of_nat (List.length existing + i))) = Some (hword s a))) /\
+    (forall l, untouched l ->
+       (forall k, (2 * N.of_nat (List.length existing) <= k <= 2 * N.of_nat (List.length existing + List.length to_load))%N -> l <> tpos k) ->
+       lgetL s' sp (frL bp fr) l = lgetL s sp freed l) /\
+    nonblk_same s s' /\
+    (m = Share -> forall x, is_blk x -> hword s x <= hword s' x <= hword s x + Z.of_nat (List.length to_load)) /\
+    (exists h', rget s' HEAP = Some h') /\ out s' = out s /\ frame_ok s' sp.
+Proof.
+  induction fuel as [|fuel IH]; intros to_load existing bp m freed lc cs fr lc' pos s sp p h F Hlf Hfuel HLast HC HL FR Hfr P Hh OK Room; [lia|].
+  set (E := List.length existing) in *.
+  destruct to_load as [|x r].
+  - (* nothing to load *)
+    destruct bp; [specialize (HLast eq_refl); contradiction|].
+    cbn [load_fields] in Hlf. inversion Hlf; subst cs fr lc'. cbn [frL List.length pnth lf_abs lf_ptr]. rewrite Nat.add_0_r.
+    exists s. split; [apply steps_refl|]. split; [apply st_eqB_refl|]. split; [exact Hfr|]. split; [intros _; exact P|].
+    split; [intros i b Hi; destruct i; discriminate|]. split; [auto|]. split; [apply nonblk_same_refl|]. split; [intros; lia|]. eauto.
+  - set (to_load := x :: r) in *. set (n := List.length to_load) in *.
+    assert (Hne : to_load <> []) by discriminate.
+    destruct (load_fields_unfold fuel to_load existing bp m freed lc cs fr lc' Hne Hlf) as (c0 & freed0 & lc0 & lv & Hlf0 & Kt & Hklm & Hlv & -> & Efr).
+    fold n in Hlf0, Kt, Hlv, Efr, HC, HL, Hklm |- *.
+    set (cap := (3 - bp_n bp)%N) in *. set (rl := rest_len n cap) in *.
+    set (rest := firstn rl to_load) in *. set (next := skipn rl to_load) in *.
+    assert (Hcap : (cap = 3 \/ cap = 2)%N) by (unfold cap; destruct bp; cbn; auto).
+    assert (Hrl : rl = (n - N.to_nat cap)%nat) by apply rest_len_val.
+    assert (Hn : (1 <= n)%nat) by (unfold n, to_load; cbn; lia).
+    assert (Lrest : List.length rest = rl) by (unfold rest; rewrite firstn_length; fold n; lia).
+    assert (Lnext : List.length next = (n - rl)%nat) by (unfold next; rewrite skipn_length; reflexivity).
+    assert (Lepr : List.length (existing ++ rest) = (E + rl)%nat) by (rewrite app_length, Lrest; reflexivity).
+    assert (Lall : List.length (existing ++ to_load) = (E + n)%nat) by (rewrite app_length; reflexivity).
+    assert (Hsplit : to_load = rest ++ next) by (unfold rest, next; now rewrite firstn_skipn).
+    assert (Hnext : next <> []) by (intros Hx; rewrite Hx in Lnext; cbn [List.length] in Lnext; lia).
+    rewrite Lepr, Lall in *.
+    cbn [lf_ok] in OK. fold n cap rl rest next in OK. destruct OK as (OK0 & Hbq & Kids).
+    cbn [lf_abs lf_ptr lf_addrs]. fold n cap rl rest next.
+    set (q := lf_ptr fuel (hword s) rest Other p) in *.
+    apply code_at_app2 in HC as [HC0 HC1]. apply labels_at_app2 in HL as [HL0 HL1].
+    (* the blocks before *)
+    destruct (IH rest existing Other m freed lc c0 freed0 lc0 pos s sp p h F Hlf0 ltac:(rewrite Lrest; lia) ltac:(discriminate) HC0 HL0 FR Hfr P Hh OK0)
+      as (s1 & ST1 & EQ1 & Fr1 & Lk1 & V1 & Oth1 & NB1 & Hd1 & (h1 & H1) & O1 & FR1).
+    { intros Hm x' Hx'. destruct (Room Hm x' Hx'). rewrite Lrest. fold n in H0. lia. }
+    cbn [frL] in Fr1, Lk1, V1, Oth1. rewrite Lrest in *. fold E q in Fr1, Lk1, V1, Oth1.
+    specialize (Lk1 eq_refl).
+    assert (Hfld1 : forall t j, (j < 3)%N -> hword s1 (q + field_offset t j) = hword s (q + field_offset t j)).
+    { intros t j Hj. apply NB1. now apply field_not_blk. }
+    (* this block *)
+    assert (B3 : (N.of_nat (n - rl) <= cap)%N) by lia.
+    assert (B4 : (2 * N.of_nat (E + n))%N = (2 * N.of_nat (E + rl + (n - rl)))%N) by (f_equal; f_equal; lia).
+    assert (B14 : lv_kids m (hword s1) (rev next) q cap).
+    { eapply lv_kids_congr; [|rewrite rev_length, Lnext; lia|exact Kids]. intros j Hj. symmetry. apply Hfld1. lia. }
+    assert (B15 : m = Share -> forall x, is_blk x -> min_int <= hword s1 x /\ hword s1 x + Z.of_nat (n - rl) <= max_int).
+    { intros Hm x' Hx'. destruct (Room Hm x' Hx') as [R1 R2]. destruct (Hd1 Hm x' Hx') as [D1 D2]. fold n in R2. lia. }
+    pose proof (x86_lf_blk_ok im (pnth pos (List.length c0)) bp next (existing ++ rest) m lc0 lv lc' freed0 (2 * N.of_nat (E + n)) s1 sp q h1 F) as BL.
+    cbv zeta in BL. rewrite Lepr, Lnext in BL. fold cap in BL.
+    destruct (BL Hlv Hnext B3 B4 Kt Hklm HC1 HL1 FR1 Fr1 Lk1 Hbq H1 B14 B15) as (s2 & ST2 & EQ2 & Lk2 & V2 & Oth2 & NB2 & Hd2 & HH2 & O2 & FR2).
+    clear BL.
+    assert (Hfa : freed_after (tpos (2 * N.of_nat (E + rl))) freed0 bp = frL bp fr).
+    { rewrite Efr. destruct (tpos (2 * N.of_nat (E + rl))) as [mr|mp] eqn:Et; cbn [freed_after frL]; destruct bp; auto.
+      destruct freed0; [|reflexivity]. specialize (Fr1 eq_refl). apply tpos_reg in Et as [_ Hlt]. lia. }
+    rewrite Hfa in *.
+    exists s2. split; [|split; [|split; [|split; [|split; [|split; [|split; [|split; [|split; [|split]]]]]]]]].
+    + eapply steps_app_len; eassumption.
+    + eapply st_eqB_trans; [exact EQ2|].
+      apply blk_abs_congr; [exact EQ1|intros j Hj; apply Hfld1; lia|exact Hbq|rewrite Lnext; lia|exact B14].
+    + intros Hf. destruct bp; cbn [frL] in Hf; [discriminate|]. rewrite Efr in Hf.
+      destruct (tpos (2 * N.of_nat (E + rl))) as [mr|mp] eqn:Et.
+      * specialize (Fr1 Hf). lia.
+      * apply tpos_slot in Et as [_ Ht]. lia.
+    + intros Ho. rewrite (Lk2 Ho). f_equal. apply NB1. apply not_blk_off; [exact Hbq|lia].
+    + intros i b Hi. set (A := lf_addrs fuel (hword s) rest Other p ++ blk_addrs q cap).
+      change (match to_load with [] => [] | _ :: _ => A end) with A.
+      set (a := nth (List.length A - n + i) A 0).
+      assert (LA : (rl <= List.length (lf_addrs fuel (hword s) rest Other p))%nat).
+      { rewrite <- Lrest at 1. apply lf_addrs_length. rewrite Lrest. lia. }
+      assert (LB : List.length (blk_addrs q cap) = N.to_nat cap) by (now apply blk_addrs_length).
+      destruct (Nat.lt_ge_cases i rl) as [Hlt|Hge].
+      * (* a variable of an earlier block *)
+        assert (Hi' : nth_error rest i = Some b).
+        { rewrite Hsplit in Hi. rewrite nth_error_app1 in Hi by (rewrite Lrest; exact Hlt). exact Hi. }
+        destruct (V1 i b Hi') as [VS VF].
+        assert (Ea : a = nth (List.length (lf_addrs fuel (hword s) rest Other p) - rl + i) (lf_addrs fuel (hword s) rest Other p) 0).
+        { unfold a, A. rewrite app_length, LB. rewrite app_nth1 by lia. f_equal. lia. }
+        rewrite Ea.
+        assert (U : forall k, (k < 2 * N.of_nat (E + rl))%N -> untouched (tpos k) /\
+                     (forall k', (2 * N.of_nat (E + rl) <= k' <= 2 * N.of_nat (E + n))%N -> tpos k <> tpos k')).
+        { intros k Hk. destruct (tpos_not_reserved k) as (_ & U2 & U3 & _ & U5).
+          split; [split; [apply tpos_loc_ok; lia|auto]|]. intros k' Hk'. apply tpos_neq. lia. }
+        split; [|intros Hx].
+        -- destruct (U (2 * N.of_nat (E + i) + 1)%N ltac:(lia)) as [U1 U2]. rewrite (Oth2 _ U1 U2). exact VS.
+        -- destruct (U (2 * N.of_nat (E + i))%N ltac:(lia)) as [U1 U2]. rewrite (Oth2 _ U1 U2). exact (VF Hx).
+      * (* a variable of this block *)
+        assert (Hi' : nth_error next (i - rl) = Some b).
+        { rewrite Hsplit in Hi. rewrite nth_error_app2 in Hi by (rewrite Lrest; exact Hge). now rewrite Lrest in Hi. }
+        assert (Hi'' : (i - rl < n - rl)%nat) by (rewrite <- Lnext; apply nth_error_Some; congruence).
+        destruct (V2 _ b Hi') as [VS VF].
+        replace (E + rl + (i - rl))%nat with (E + i)%nat in VS, VF by lia.
+        set (j := (cap - N.of_nat (n - rl) + N.of_nat (i - rl))%N) in *.
+        assert (Hj : (j < cap)%N) by (unfold j; lia).
+        assert (Ea : a = q + field_offset Fst j).
+        { unfold a, A. rewrite app_length, LB. rewrite app_nth2 by lia.
+          rewrite <- (blk_addrs_nth q cap j Hcap Hj). f_equal. unfold j. lia. }
+        rewrite Ea. rewrite <- Z.add_assoc, <- fo_snd_fst. rewrite <- !Hfld1 by lia. auto.
+    + intros l U Hr. rewrite Oth2; [apply Oth1; [exact U|]|exact U|]; intros k Hk; apply Hr; lia.
+    + eapply nonblk_same_trans; eassumption.
+    + intros Hm x' Hx'. destruct (Hd1 Hm x' Hx'), (Hd2 Hm x' Hx'). fold n. lia.
+    + exact HH2.
+    + congruence.
+    + exact FR2.
+Qed.
+End LoadChain2.
